@@ -20,7 +20,7 @@ def run(tier, seed):
     perms = list(itertools.permutations(range(5)))
     extras = [[], [["Station", 0, "str"]], [["Wind", 99, "num"]], [["Station", 2, "str"], ["Wind", 4, "num"]],
               [["SnowDepth", 99, "nan"]], [["Flag", 1, "none"], ["SnowDepth", 3, "nan"]]]
-    indexes = ["range", "shifted", "datetime", "labels", "datetime_shifted", "datetime_noon", "datetime_other"]
+    indexes = ["range", "shifted", "datetime", "labels", "datetime_shifted", "datetime_noon", "datetime_other", "year", "const"]
     pads = [{}, {"pad_before": 37}, {"pad_before": 400, "pad_after": 200}, {"pad_sparse": True}, {"pad_before": 300, "gap_before": "@start"}]
     space = [(p, e, i, d) for p in perms for e in extras for i in indexes for d in pads]
     jobs, pairs = [], []
@@ -37,12 +37,16 @@ def run(tier, seed):
             pairs.append({"a": a, "b": len(jobs) - 1, "rule": "identity", "scenario": b,
                           "label": {"crop": sc["crop"]["name"], "perm": list(p), "extra": [x[0] for x in e], "index": i, "pad": d}})
     if tier == "thorough":
-        add(fast, space)                                   # all 120 x 6 x 7 x 5 = 25200 on the short window
+        # the full product is 120 x 6 x 9 x 5 = 32400: every column permutation with 30 random settings of the other dimensions, and every
+        # setting of the other dimensions (6 x 9 x 5 = 270) with 4 random permutations, on the short window
+        others = [(e, i, d) for e in extras for i in indexes for d in pads]
+        sample = [(p, e, i, d) for p in perms for (e, i, d) in rnd.sample(others, 30)] + [(p, e, i, d) for (e, i, d) in others for p in rnd.sample(perms, 4)]
+        add(fast, sample)
         for sc in fulls:
             add(sc, rnd.sample(space, 40))
     else:
         # covering sample: every permutation position, every extra, index kind and padding at least once
-        combos = [(perms[0], extras[0], "range", pads[3]), (perms[5], extras[1], "shifted", pads[4]), (perms[0], extras[0], "shifted", pads[1]), (perms[0], extras[1], "datetime", pads[0]), (perms[0], extras[2], "labels", pads[2]),
+        combos = [(perms[0], extras[0], "year", pads[1]), (perms[2], extras[0], "const", pads[2]), (perms[0], extras[0], "range", pads[3]), (perms[5], extras[1], "shifted", pads[4]), (perms[0], extras[0], "shifted", pads[1]), (perms[0], extras[1], "datetime", pads[0]), (perms[0], extras[2], "labels", pads[2]),
                   (perms[0], extras[4], "range", pads[0]), (perms[7], extras[5], "shifted", pads[1])]
         combos += rnd.sample(space, 30)
         add(fast, combos)
@@ -53,7 +57,7 @@ def run(tier, seed):
             add(sc, [(perms[0], extras[0], "datetime_shifted", pads[0]), (perms[3], extras[2], "datetime_noon", pads[1]), (perms[0], extras[0], "datetime_other", pads[0])])
     return equivbase.equiv_check(PROP, tier, seed, jobs, pairs, level="exploration",
                                  rule_text="C15: weather-table transformations (column permutation x extra columns x index kind x extra rows outside the window) "
-                                           "vs the canonical table, rule identity", extra={"transformation_space": len(space), "exhaustive": tier == "thorough"})
+                                           "vs the canonical table, rule identity", extra={"transformation_space": len(space), "exhaustive": False})
 
 
 def replay(path):
